@@ -81,6 +81,22 @@ func ZZ_C04_runLoop() {
 	h.chain.syncm = &SyncManager{log: zzfake.Logger(), newReq: make(chan RequestInfo, 10)}
 	tk := &ticker{clock: clk, period: nw.group.Period, genesis: nw.group.GenesisTime, newCh: make(chan channelInfo, tickerChanBacklog), stop: make(chan bool, 1)}
 	h.ticker = tk
+	restarted := zz.Bool("beacon_arrives_before_the_first_tick")
+	if restarted {
+		// a node restarted in the middle of a round (Catchup passes the time of the NEXT round as start time)
+		// aggregates or syncs a beacon before its first tick: nothing may be signed ahead of the clock
+		_, nextTime := common.NextRound(now, nw.group.Period, nw.group.GenesisTime)
+		go h.run(nextTime)
+		zz.Quiesce()
+		br0 := zz.U64("early.round")
+		zz.Assume(br0 <= cur)
+		h.chain.catchupBeacons <- &common.Beacon{Round: br0, Signature: zz.Bytes("early.sig", 2), PreviousSig: zz.Bytes("early.prev", 2)}
+		zz.Quiesce()
+		zz.Tag("branch=catchup_before_first_tick")
+		zzCheckEmissions(nw, h, client, clk)
+		cancel()
+		return
+	}
 	go h.run(now)
 	zz.Quiesce()
 	// deliver the tick of the clock's round through the channel run() registered
